@@ -1514,6 +1514,19 @@ class Engine:
         raise Refuse('list method ' + meth)
 
     def sym_builtin(self, f, name, args, kwargs, node):
+        if name == 'hasattr' and len(args) == 2 and isinstance(args[1], str):
+            o, a_ = args
+            if isinstance(o, ObjModel):
+                if a_ in o.attrs:
+                    return True
+                if o.real is not None:
+                    return hasattr(o.real, a_)
+                if o.cls is not None:
+                    # class attributes are known; an instance attribute set elsewhere may or may not exist
+                    return True if hasattr(o.cls, a_) else (UNK if self.unknown_ok else self._refuse('hasattr on a partially modelled object'))
+                return False
+            if isinstance(o, (SymMem, SymList)):
+                return hasattr(list, a_)
         if name == 'len' and len(args) == 1:
             a = args[0]
             if isinstance(a, SymList):
